@@ -530,6 +530,22 @@ def inputs_for(ctx, fmt, mn, mx, step, rng):
     return uniq
 
 
+def gatt_fetch_part(ctx) -> None:
+    """What the accessory's HAP-BLE signatures declare is what the model holds after the real GATT database fetch
+    (vf/sim_gatt_db.py): formats, permission and event flags, service links in either direction, and the declared limits -
+    a bound of exactly 0 included."""
+    from vf import sim_gatt_db, vloop
+
+    async def main():
+        for k in range(ctx.pick(24, 600)):
+            if ctx.mine(k):
+                ctx.case("gatt-fetch", k, sample={"part": "BLE GATT database fetch", "layout": k}, kind="gatt-fetch")
+                if not await sim_gatt_db.fetch_and_compare(ctx, ctx.grng("C14.gatt-fetch", k), {"gatt_fetch": k}):
+                    return
+
+    vloop.run(main())
+
+
 def run(ctx) -> None:
     idx = 0
     formats = ["bool", *INT_FORMATS, "float"]
@@ -548,9 +564,14 @@ def run(ctx) -> None:
                 entry = "build_update" if (vi + ci) % 4 == 0 else "check_convert_value"
                 run_case(ctx, fmt, mn, mx, step, value, entry)
     ambient_context_part(ctx)
+    gatt_fetch_part(ctx)
 
 
 def replay(ctx, d) -> None:
+    if d.get("gatt_fetch") is not None:
+        ctx.shard, ctx.nshards = 0, 1
+        gatt_fetch_part(ctx)
+        return
     if d.get("ambient"):
         ctx.shard, ctx.nshards = 0, 1
         ambient_context_part(ctx)
